@@ -38,6 +38,21 @@ CLAIMED = {
              "driver (visit_For) is covered end-to-end only; values are ints.",
         design_ref="§5 C07",
     ),
+    "C10": dict(
+        category="proof",
+        technique="Lean 4 proof about the buffering loop model (concatenation preserved, chunk sizes) + exhaustive "
+                  "differential piece lists on the real TemplateStream + all entry points end-to-end",
+        text="Theorems (Props/C10.lean): for every piece list and buffer size >= 1, concatenating the buffered chunks "
+             "equals concatenating the pieces (buffered_concat); every chunk but the last holds exactly `size` "
+             "non-empty pieces, none is made of empty pieces only, none exceeds `size` (buffered_chunks). Tie: every "
+             "piece list of length <=6 (quick) / <=8 (thorough) over {'', 'a', 'bc'} x sizes 2-8 against the real "
+             "TemplateStream; generated template sets (extends/include/import/macros/loops) through render, generate, "
+             "stream, buffered stream, dump (text, utf-8, path, write-only target), module str, render_async, "
+             "generate_async, with the real piece lists fed to the Lean model for the expected chunking.",
+        note="Trusted: Lean kernel; hand model Model/Stream.lean (tied by correspondence); str.join, file objects and "
+             "codecs are Python's; render = concat(generate) etc. are established by correspondence, not by proof.",
+        design_ref="§5 C10",
+    ),
 }
 
 NOT_YET = "not yet decided by the Lean model in this revision (machinery for it is not built; see DESIGN.md §8 build order)"
